@@ -44,28 +44,31 @@ Proof.
 Qed.
 
 (* ------------------------------------------------------------------------------------------------ *)
-(* what a result may be: [ok false r] = r is no panic at all; [ok true r] = r is no panic except possibly the
-   decimal library's exponent-overflow panic *)
+(* what a result may be: [ok false r] = r is a value: no panic at all, and the model's fuel did not run out;
+   [ok true r] = the same except that the decimal library's exponent-overflow panic is allowed *)
 
 Definition ok (allow_exp : bool) (r : res) : Prop :=
   match r with
+  | Ret _ => True
   | Panic PExponent => allow_exp = true
   | Panic _ => False
-  | _ => True
+  | NoFuel => False
   end.
 
-Lemma ok_false_iff : forall r, ok false r <-> forall c, r <> Panic c.
+Lemma ok_false_iff : forall r, ok false r <-> (r <> NoFuel /\ forall c, r <> Panic c).
 Proof.
   intros r; split.
-  - intros H c E. subst r. destruct c; simpl in H; try contradiction; discriminate.
-  - intros H. destruct r as [v|c|]; simpl; auto. destruct c; try (exfalso; eapply H; reflexivity).
+  - intros H. split; [intros E; subst r; exact H|].
+    intros c E. subst r. destruct c; simpl in H; try contradiction; discriminate.
+  - intros [H0 H]. destruct r as [v|c|]; simpl; auto. destruct c; try (exfalso; eapply H; reflexivity).
 Qed.
 
-Lemma ok_true_iff : forall r, ok true r <-> forall c, r = Panic c -> c = PExponent.
+Lemma ok_true_iff : forall r, ok true r <-> (r <> NoFuel /\ forall c, r = Panic c -> c = PExponent).
 Proof.
   intros r; split.
-  - intros H c E. subst r. destruct c; simpl in H; try contradiction; reflexivity.
-  - intros H. destruct r as [v|c|]; simpl; auto. destruct c; auto; specialize (H _ eq_refl); discriminate.
+  - intros H. split; [intros E; subst r; exact H|].
+    intros c E. subst r. destruct c; simpl in H; try contradiction; reflexivity.
+  - intros [H0 H]. destruct r as [v|c|]; simpl; auto. destruct c; auto; specialize (H _ eq_refl); discriminate.
 Qed.
 
 Lemma ok_weaken : forall b r, ok false r -> ok b r.
@@ -107,6 +110,22 @@ Lemma min_max_args_ok : forall min max f,
   forall args, ok b (min_max_args min max f args).
 Proof.
   intros min max f Hf args. unfold min_max_args.
+  destruct (Z.of_nat min =? max) eqn:E1.
+  - apply Z.eqb_eq in E1. destruct (Nat.eqb (length args) min) eqn:E2; simpl; [|exact I].
+    apply Nat.eqb_eq in E2. apply Hf. unfold admitted. lia.
+  - destruct (max <? 0) eqn:E2.
+    + apply Z.ltb_lt in E2. destruct (Nat.ltb (length args) min) eqn:E3; [exact I|].
+      apply Nat.ltb_ge in E3. apply Hf. unfold admitted. lia.
+    + apply Z.ltb_ge in E2.
+      destruct (Nat.ltb (length args) min) eqn:E3; simpl; [exact I|].
+      destruct (max <? Z.of_nat (length args)) eqn:E4; [exact I|].
+      apply Nat.ltb_ge in E3. apply Z.ltb_ge in E4. apply Hf. unfold admitted. lia.
+Qed.
+
+Lemma min_max_args_ok_at : forall min max f args,
+  (admitted min max (length args) -> ok b (f args)) -> ok b (min_max_args min max f args).
+Proof.
+  intros min max f args Hf. unfold min_max_args.
   destruct (Z.of_nat min =? max) eqn:E1.
   - apply Z.eqb_eq in E1. destruct (Nat.eqb (length args) min) eqn:E2; simpl; [|exact I].
     apply Nat.eqb_eq in E2. apply Hf. unfold admitted. lia.
@@ -366,14 +385,14 @@ Proof.
 Qed.
 
 Lemma has_group_loop_ok : forall fuel items i uuid,
-  0 <= i -> ok b (has_group_loop fuel items i uuid).
+  0 <= i -> (Z.to_nat (zlen items - i) < fuel)%nat -> ok b (has_group_loop fuel items i uuid).
 Proof.
-  induction fuel as [|fuel IH]; intros items i uuid Hi; simpl; [exact I|].
+  induction fuel as [|fuel IH]; intros items i uuid Hi Hf; [lia|]. simpl.
   destruct (i <? zlen items) eqn:E; simpl; [|exact I]. apply Z.ltb_lt in E.
   destruct (go_index_some items i) as [item ->]; [lia|].
   destruct (to_object item) as [group|]; [|exact I].
   destruct (to_text _) as [u|]; [|exact I].
-  destruct (text_eqb u uuid); [exact I|]. apply IH. lia.
+  destruct (text_eqb u uuid); [exact I|]. apply IH; lia.
 Qed.
 
 Lemma has_group_body_ok : forall args, (2 <= length args <= 3)%nat -> ok b (has_group_body args).
@@ -381,20 +400,21 @@ Proof.
   intros args H. unfold has_group_body.
   apply with_arg_ok; [lia|]. intros va0. destruct (to_array va0) as [items|]; [|exact I].
   apply with_arg_ok; [lia|]. intros va1. destruct (to_text va1); [|exact I].
-  apply has_group_loop_ok. lia.
+  apply has_group_loop_ok; [lia|]. unfold zlen. lia.
 Qed.
 
 (* Object: pairs[i+1] is inside because the length is even *)
 Lemma object_pairs_ok : forall fuel pairs i acc,
-  Nat.even (length pairs) = true -> Nat.even i = true -> ok b (object_pairs fuel pairs i acc).
+  Nat.even (length pairs) = true -> Nat.even i = true -> (length pairs - i < fuel)%nat ->
+  ok b (object_pairs fuel pairs i acc).
 Proof.
-  induction fuel as [|fuel IH]; intros pairs i acc Hp Hi; simpl; [exact I|].
+  induction fuel as [|fuel IH]; intros pairs i acc Hp Hi Hf; [lia|]. simpl.
   destruct (Nat.leb (length pairs) i) eqn:E; [exact I|]. apply Nat.leb_gt in E.
   assert (Hi1 : (i + 1 < length pairs)%nat).
   { destruct (Nat.eq_dec (i + 1) (length pairs)) as [Heq|Hne]; [|lia].
     rewrite <- Heq in Hp. rewrite Nat.add_1_r, Nat.even_succ, <- Nat.negb_even, Hi in Hp. discriminate. }
   apply with_arg_ok; [lia|]. intros key. apply with_arg_ok; [lia|]. intros val.
-  destruct (to_text key); [|exact I]. apply IH; [assumption|].
+  destruct (to_text key); [|exact I]. apply IH; [assumption| |lia].
   replace (i + 2)%nat with (S (S i)) by lia. rewrite Nat.even_succ_succ. assumption.
 Qed.
 
@@ -402,7 +422,7 @@ Lemma object_fn_ok : forall args, ok b (object_fn args).
 Proof.
   intros args. unfold object_fn. destruct (find is_err args); [exact I|].
   destruct (Nat.eqb (Nat.modulo (length args) 2) 0) eqn:E; cbn [negb]; [|exact I].
-  apply object_pairs_ok; [|reflexivity].
+  apply object_pairs_ok; [|reflexivity|lia].
   apply Nat.eqb_eq in E. apply Nat.even_spec. exists (length args / 2)%nat.
   pose proof (Nat.div_mod (length args) 2). lia.
 Qed.
@@ -522,26 +542,24 @@ Proof.
 Qed.
 
 Lemma foreach_items_ok : forall bb call_f items other acc,
-  (forall a, ok bb (call_f a)) -> ok bb (foreach_items call_f items other acc).
+  (forall item, ok bb (call_f (item :: other))) -> ok bb (foreach_items call_f items other acc).
 Proof.
   intros bb call_f items other. induction items as [|item r IH]; intros acc H; simpl; [exact I|].
-  pose proof (H (item :: other)) as H1. destruct (call_f (item :: other)) as [v|c|]; try assumption.
+  pose proof (H item) as H1. destruct (call_f (item :: other)) as [v|c|]; try assumption.
   destruct (is_err v); [exact I|]. apply IH. assumption.
 Qed.
 
-Lemma call_ok : forall fuel f args, ok true (call fuel f args).
+(* the nested call of foreach has one argument fewer: the number of arguments is enough fuel *)
+Lemma call_ok : forall fuel f args, (length args <= fuel)%nat -> ok true (call fuel f args).
 Proof.
-  induction fuel as [|fuel IH]; intros f args.
+  induction fuel as [|fuel IH]; intros f args Hl.
   - destruct (fname_eq_foreach f) as [->|Hne]; [|rewrite call_not_foreach by assumption; apply call_simple_ok; assumption].
-    simpl. apply min_max_args_ok. intros a [H1 _].
-    apply with_arg_ok; [lia|]. intros v0. destruct (to_array v0); [|exact I].
-    apply with_arg_ok; [lia|]. intros v1. destruct (to_function v1); [|exact I].
-    apply with_rest_ok; [lia|]. intros; exact I.
+    simpl. apply min_max_args_ok_at. intros [H1 _]. lia.
   - destruct (fname_eq_foreach f) as [->|Hne]; [|rewrite call_not_foreach by assumption; apply call_simple_ok; assumption].
-    simpl. apply min_max_args_ok. intros a [H1 _].
+    simpl. apply min_max_args_ok_at. intros [H1 _].
     apply with_arg_ok; [lia|]. intros v0. destruct (to_array v0); [|exact I].
     apply with_arg_ok; [lia|]. intros v1. destruct (to_function v1) as [g|]; [|exact I].
-    apply with_rest_ok; [lia|]. intros r _. apply foreach_items_ok. intros a'. apply IH.
+    apply with_rest_ok; [lia|]. intros r Hr. apply foreach_items_ok. intros item. apply IH. simpl. lia.
 Qed.
 
 End Calls.
@@ -668,7 +686,7 @@ Proof.
   - apply bind_ok; [assumption|]. intros fv. destruct (is_err fv); [exact I|].
     destruct fv; try exact I.
     generalize (@nil value). induction H as [|p r Hp Hr IHr]; intros acc.
-    + unfold call_function. apply call_ok. assumption.
+    + unfold call_function. apply call_ok; [assumption|lia].
     + apply bind_ok; [assumption|]. intros pv. apply IHr.
   - apply bind_ok; [assumption|]. intros v. apply ok_weaken. apply eval_neg_ok.
   - apply bind_ok; [assumption|]. intros av. apply bind_ok; [assumption|]. intros bv. apply eval_binop_ok.
@@ -787,17 +805,24 @@ Variable regex_submatch : text -> text -> option (list text).
 Variable ext_call : N -> list value -> res.
 Notation call_function := (call_function wclass regex_submatch ext_call).
 
-Lemma builtin_no_panic : forall f args c, exponent_free f = true -> call_function f args <> Panic c.
+Lemma builtin_ok : forall f args, exponent_free f = true -> ok false (call_function f args).
 Proof.
-  intros f args c Hf. unfold ExEval.call_function. rewrite call_not_foreach by (intros ->; discriminate).
-  apply ok_false_iff. apply call_simple_exponent_free. assumption.
+  intros f args Hf. unfold ExEval.call_function. rewrite call_not_foreach by (intros ->; discriminate).
+  apply call_simple_exponent_free. assumption.
 Qed.
+
+Lemma builtin_no_panic : forall f args c, exponent_free f = true -> call_function f args <> Panic c.
+Proof. intros f args c Hf. apply (proj2 (proj1 (ok_false_iff _) (builtin_ok f args Hf))). Qed.
+
+(* the fuel of the model's loops (object pairs, has_group) never runs out: no statement is true for that reason *)
+Lemma builtin_fuel : forall f args, exponent_free f = true -> call_function f args <> NoFuel.
+Proof. intros f args Hf. apply (proj1 (proj1 (ok_false_iff _) (builtin_ok f args Hf))). Qed.
 
 Lemma builtin_exponent_only : forall f args c, f <> FForEach -> (forall id, f <> FOther id) ->
   call_function f args = Panic c -> c = PExponent.
 Proof.
   intros f args c Hf Ho. unfold ExEval.call_function. rewrite call_not_foreach by assumption.
-  apply ok_true_iff. destruct (exponent_free f) eqn:E.
+  revert c. apply (fun H => proj2 (proj1 (ok_true_iff _) H)). destruct (exponent_free f) eqn:E.
   - apply ok_weaken. apply call_simple_exponent_free. assumption.
   - destruct f; try discriminate E; unfold ExEval.call_simple.
     + apply two_number_function_ok. apply mod_body_ok.
@@ -864,18 +889,27 @@ Proof.
   unfold two_number_function, num_args, min_max_args, with_arg. simpl. rewrite Hx, Hy. apply mod_body_zero. assumption.
 Qed.
 
-(* foreach and every function value: panics of the called function are the only panics; fuel suffices *)
-Lemma call_function_exponent_only :
-  (forall id args c, ext_call id args = Panic c -> c = PExponent) ->
-  forall f args c, call_function f args = Panic c -> c = PExponent.
+(* foreach and every function value: panics of the called function are the only panics; the number of arguments
+   is enough fuel for the nesting of foreach *)
+Definition ext_well_behaved : Prop :=
+  forall id args, ext_call id args <> NoFuel /\ forall c, ext_call id args = Panic c -> c = PExponent.
+
+Lemma call_function_ok : ext_well_behaved -> forall f args, ok true (call_function f args).
 Proof.
-  intros Hext f args. apply ok_true_iff. unfold ExEval.call_function. apply call_ok.
+  intros Hext f args. unfold ExEval.call_function. apply call_ok; [|lia].
   intros id a. apply ok_true_iff. apply Hext.
 Qed.
 
-Lemma eval_exponent_only : forall lookup_function,
-  (forall id args c, ext_call id args = Panic c -> c = PExponent) ->
-  forall ctx e c, eval wclass regex_submatch ext_call lookup_function ctx e = Panic c -> c = PExponent.
+Lemma call_function_exponent_only : ext_well_behaved ->
+  forall f args c, call_function f args = Panic c -> c = PExponent.
+Proof. intros Hext f args. apply (proj2 (proj1 (ok_true_iff _) (call_function_ok Hext f args))). Qed.
+
+Lemma call_function_fuel : ext_well_behaved -> forall f args, call_function f args <> NoFuel.
+Proof. intros Hext f args. apply (proj1 (proj1 (ok_true_iff _) (call_function_ok Hext f args))). Qed.
+
+Lemma eval_statement : forall lookup_function, ext_well_behaved ->
+  forall ctx e, eval wclass regex_submatch ext_call lookup_function ctx e <> NoFuel /\
+                forall c, eval wclass regex_submatch ext_call lookup_function ctx e = Panic c -> c = PExponent.
 Proof.
   intros lf Hext ctx e. apply ok_true_iff. apply eval_ok. intros id a. apply ok_true_iff. apply Hext.
 Qed.
@@ -892,9 +926,8 @@ Proof. apply work_bound. Qed.
 End Statements.
 
 (* the hypothesis of the two evaluator statements is satisfiable *)
-Example ext_hypothesis_satisfiable :
-  exists ext : N -> list value -> res, forall id args c, ext id args = Panic c -> c = PExponent.
-Proof. exists (fun _ _ => Ret VNil). intros; discriminate. Qed.
+Example ext_hypothesis_satisfiable : exists ext : N -> list value -> res, ext_well_behaved ext.
+Proof. exists (fun _ _ => Ret VNil). intros id args. split; [discriminate|intros; discriminate]. Qed.
 
 Example numbers_sized_satisfiable : numbers_sized [VNum (Dec 15 (-1)); VNum (Dec 100 0)].
 Proof. apply (numbers_sized_numbers [Dec 15 (-1); Dec 100 0]). Qed.
